@@ -51,6 +51,8 @@ CFGS = {
     "msan": dict(cc="clang-14", cflags=["-O1", "-g", "-fno-omit-frame-pointer", "-fsanitize=memory",
                                         "-fsanitize-memory-track-origins=2"], ld=["-fsanitize=memory"]),
     "tsan": dict(cc="gcc", cflags=["-O1", "-g", "-fsanitize=thread"], ld=["-fsanitize=thread"]),
+    "tsanN": dict(cc="gcc", cflags=["-O2", "-g", "-DNDEBUG", "-march=native", "-fsanitize=thread"], ld=["-fsanitize=thread"]),
+    "sse41": dict(cc="gcc", cflags=["-O2", "-g", "-DNDEBUG", "-msse4.1"], ld=[]),
 }
 
 SAN_ENV = {
